@@ -27,7 +27,7 @@ BOUNDS = ["operator lifting: operand shape pairs scalar / 1xn / nx1 / nxm up to 
           "elements: solver-chosen class {number, logical, blank, text 'x', error #DIV/0!} with int |v|<=9 (more than 4 elements: numbers and text only)",
           "function lifting: LEFT(text array, n), LEN(array), SIGN(array) on 1x2, 2x1, 2x2 arrays",
           "fit_to_range: every result shape x target shape up to 3x3 (quick) / 4x4 (thorough), elements symbolic ints",
-          "end-to-end CSE: 5 templates (same shape, result larger, scalar, single row, single column incl. #N/A fill), inputs symbolic"]
+          "end-to-end CSE: 5 templates (same shape, result larger, scalar, single row, single column incl. #N/A fill); A1, B1 symbolic {number, logical, blank}, A2, A3 symbolic numbers"]
 ASSUMPTIONS = ["floats as exact reals", "numpy object arrays keep their (symbolic) elements; numpy's C broadcasting of shapes is concrete"]
 
 FIXUP = build_operator_operand_fixup(lambda *a: None)
@@ -219,8 +219,8 @@ def ob_cse(t, members_first, k0: int, v0: int, k1: int, v1: int, k2: int, v2: in
     range evaluates to the same elements, whichever is evaluated first"""
     ks, vs = (k0, k1, k2, k3), (v0, v1, v2, v3)
     for i in range(4):
-        if not (0 <= ks[i] <= 2 and -9 <= vs[i] <= 9):
-            return None
+        if not (0 <= ks[i] <= (2 if i in (0, 3) else 0) and -9 <= vs[i] <= 9):
+            return None         # A1 and B1: number / logical / blank; A2, A3: numbers
     vals = tuple(_cell(ks[i], vs[i]) for i in range(4))
     with wb.notrace():
         m = ExcelCompiler(excel=wb.SubstWrapper(wb.make_workbook(t), {}))
@@ -292,8 +292,6 @@ def obligations(tier):
                                   float_mode="real", group="fit"))
     for t in ("cse_same", "cse_trim", "cse_scalar", "cse_row", "cse_col"):
         for mf in (True, False):
-            if tier == "quick" and mf != (t in ("cse_same", "cse_scalar", "cse_col")):
-                continue
             obs.append(Obligation(PROP, f"cse[{t},{'members' if mf else 'range'}-first]", __name__, "ob_cse", (t, mf),
                                   timeout=400 if tier == "quick" else 1500, float_mode="real", group="cse"))
     return obs
